@@ -47,6 +47,15 @@ use zcash_protocol::{
 
 type Net = LocalNetwork;
 
+thread_local! { static TIMES: std::cell::RefCell<BTreeMap<&'static str, (u64, u128)>> = std::cell::RefCell::new(BTreeMap::new()); }
+fn timed<T>(k: &'static str, f: impl FnOnce() -> T) -> T {
+    let t = std::time::Instant::now();
+    let r = f();
+    let d = t.elapsed().as_micros();
+    TIMES.with(|m| { let mut m = m.borrow_mut(); let e = m.entry(k).or_insert((0, 0)); e.0 += 1; e.1 += d; });
+    r
+}
+
 fn clock() -> FixedClock {
     FixedClock::new(SystemTime::UNIX_EPOCH + Duration::from_secs(1_740_441_600))
 }
@@ -56,6 +65,8 @@ fn open(path: &Path) -> Connection {
     rusqlite::vtab::array::load_module(&c).expect("array module");
     // never wait for a lock: a refused lock is an immediate SQLITE_BUSY (the harness is single-threaded)
     c.busy_timeout(Duration::ZERO).expect("busy_timeout");
+    // durability against power loss is SQLite's business (trusted base); do not wait for the disk
+    c.execute_batch("PRAGMA synchronous = OFF").expect("synchronous");
     c
 }
 
@@ -196,6 +207,7 @@ struct StmtRec {
     /// progress callbacks seen before this statement started
     step: u64,
     write: bool,
+    sql: String,
 }
 
 struct Probe {
@@ -221,9 +233,27 @@ struct Probe {
     /// rows changed (update hook) before the fault fired
     rows_before_fault: u32,
     total_rows: u32,
+    /// the writer's connection is inside a transaction, as far as the events emitted so far say
+    in_txn: bool,
+    /// raw handle of the writer's connection (only `sqlite3_get_autocommit` is called on it)
+    handle: usize,
 }
 
 impl Probe {
+    /// The transaction state is read off the connection's autocommit flag (a BEGIN that failed, or one
+    /// that no statement followed, is thereby seen for what it was).
+    fn sync_txn(&mut self, autocommit: bool) {
+        if !autocommit && !self.in_txn {
+            self.flush();
+            self.ev.push(json!({"a": "wbegin"}));
+            self.in_txn = true;
+        }
+    }
+
+    fn autocommit_now(&self) -> bool {
+        unsafe { ffi::sqlite3_get_autocommit(self.handle as *mut ffi::sqlite3) != 0 }
+    }
+
     fn flush(&mut self) {
         if self.st_n > 0 || self.rows > 0 {
             self.ev.push(json!({"a": "wstmt", "n": self.st_n, "w": self.st_w, "aw": self.st_aw, "rows": self.rows}));
@@ -241,13 +271,11 @@ impl Probe {
         }
         if self.record {
             let ctl = head.starts_with("BEGIN") || head.starts_with("COMMIT") || head.starts_with("ROLLBACK") || head.starts_with("END");
-            self.stmts.push(StmtRec { step: self.steps, write: !readonly && !ctl });
+            self.stmts.push(StmtRec { step: self.steps, write: !readonly && !ctl, sql: sql.split_whitespace().collect::<Vec<_>>().join(" ").chars().take(110).collect() });
         }
-        if head.starts_with("BEGIN") || (head.starts_with("SAVEPOINT") && autocommit) {
-            self.flush();
-            self.ev.push(json!({"a": "wbegin"}));
-        } else if head.starts_with("COMMIT") || head.starts_with("END") || head.starts_with("ROLLBACK") || head.starts_with("RELEASE") || head.starts_with("SAVEPOINT") {
-            // reported by the commit / rollback hooks
+        self.sync_txn(autocommit);
+        if head.starts_with("BEGIN") || head.starts_with("COMMIT") || head.starts_with("END") || head.starts_with("ROLLBACK") || head.starts_with("RELEASE") || head.starts_with("SAVEPOINT") {
+            // transaction control: seen through the autocommit flag and the commit / rollback hooks
         } else {
             self.st_n += 1;
             if !readonly {
@@ -263,14 +291,14 @@ impl Probe {
         self.ncrash += 1;
         let dst = self.scratch.join(format!("crash{}.db", self.ncrash));
         copy_db(&self.db_path, &dst);
-        let dig = {
+        let dig = timed("crash_dump", || {
             let c = Connection::open(&dst).expect("open crash image");
             let _ = c.busy_timeout(Duration::ZERO);
             match dump(&c) {
                 Ok((d, _)) => d,
                 Err(e) => format!("err:{e}"),
             }
-        };
+        });
         remove_db(&dst);
         self.ev.push(json!({"a": "crash", "at": at, "dig": dig}));
     }
@@ -279,10 +307,12 @@ impl Probe {
     fn on_step(&mut self) -> bool {
         self.steps += 1;
         if self.fault_at != 0 && self.steps == self.fault_at && !self.fired {
+            let auto = self.autocommit_now();
+            self.sync_txn(auto);
             self.flush();
             if self.observe_at_fault {
                 if let Some(r) = self.reader.as_ref() {
-                    let (d, s, _) = observe(r, self.net);
+                    let (d, s, _) = timed("observe_cb", || observe(r, self.net));
                     self.ev.push(json!({"a": "rbegin"}));
                     self.ev.push(json!({"a": "rread", "kind": "dump", "val": d}));
                     self.ev.push(json!({"a": "rread", "kind": "summary", "val": s}));
@@ -329,14 +359,21 @@ fn install(conn: &Connection, probe: &Arc<Mutex<Probe>>) {
                 g.crash_image("commit-hook");
             }
             g.ev.push(json!({"a": "wcommit"}));
+            g.in_txn = false;
         }
         false
     }));
     let p = probe.clone();
     conn.rollback_hook(Some(move || {
         if let Ok(mut g) = p.lock() {
+            // a transaction no statement ran in (unless this is the rollback after a refused commit)
+            let refused_commit = g.st_n == 0 && g.ev.last().map(|e| e["a"] == "wcommit").unwrap_or(false);
+            if !refused_commit {
+                g.sync_txn(false);
+            }
             g.flush();
             g.ev.push(json!({"a": "wrollback"}));
+            g.in_txn = false;
         }
     }));
     let p = probe.clone();
@@ -540,17 +577,18 @@ fn scan_op(n: usize) -> OpDef {
 /// Notes of the wallet that are mined in scanned blocks and unspent on the harness chain.
 fn lockable_notes(s: &State) -> Vec<u32> {
     let mut v = vec![];
-    let spendable: BTreeSet<u32> = s.chain.spendable().into_iter().collect();
-    for (h, b) in s.chain.blocks.range(..=s.scanned_to) {
-        let _ = h;
+    let mut spent = BTreeSet::new();
+    for (_, b) in s.chain.blocks.range(..=s.scanned_to) {
         for t in &b.txs {
+            spent.extend(t.spends.iter().copied());
             for o in &t.outs {
-                if o.note > 0 && spendable.contains(&o.note) {
+                if o.note > 0 {
                     v.push(o.note);
                 }
             }
         }
     }
+    v.retain(|n| !spent.contains(n));
     v
 }
 
@@ -618,7 +656,7 @@ struct Runner<'a> {
 
 impl Runner<'_> {
     fn restore(&mut self, s: &State, emit: bool) {
-        copy_db(&s.file, &self.run_db);
+        timed("restore", || copy_db(&s.file, &self.run_db));
         if emit {
             self.out.emit(&json!({"a": "restore"}));
         }
@@ -627,8 +665,8 @@ impl Runner<'_> {
     /// Runs `op` on the working copy with the probe installed and writes the events.
     #[allow(clippy::too_many_arguments)]
     fn exec(&mut self, s: &State, op: &OpDef, mode: &str, fault_at: u64, record: bool, crash: bool, pre: &BTreeMap<String, String>) -> Exec {
-        let mut conn = open(&self.run_db);
-        let reader = open(&self.run_db);
+        let mut conn = timed("open", || open(&self.run_db));
+        let reader = timed("open", || open(&self.run_db));
         let probe = Arc::new(Mutex::new(Probe {
             net: s.net,
             steps: 0,
@@ -650,10 +688,12 @@ impl Runner<'_> {
             stmts: vec![],
             rows_before_fault: 0,
             total_rows: 0,
+            in_txn: false,
+            handle: unsafe { conn.handle() } as usize,
         }));
         self.out.emit(&json!({"a": "opstart", "op": op.name, "mode": mode, "fault": fault_at}));
         install(&conn, &probe);
-        let r = (op.run)(&mut conn, s);
+        let r = timed("op", || (op.run)(&mut conn, s));
         uninstall(&conn);
         let auto = conn.is_autocommit();
         let mut g = probe.lock().unwrap();
@@ -663,8 +703,8 @@ impl Runner<'_> {
         }
         let reader = g.reader.take().unwrap();
         // what is durable now (second connection) and what the writer's own connection sees
-        let (dig, sum, per) = observe(&reader, s.net);
-        let wdig = match dump(&conn) {
+        let (dig, sum, per) = timed("observe_end", || observe(&reader, s.net));
+        let wdig = match timed("wdump", || dump(&conn)) {
             Ok((d, _)) => d,
             Err(e) => format!("err:{e}"),
         };
@@ -765,6 +805,12 @@ fn run_group(rn: &mut Runner, s: &State, op: &OpDef, quick: bool, rng: &mut ChaC
     rn.out.emit(&json!({"a": "reset", "state": s.name, "op": op.name, "wal": s.wal, "dig": dig, "sum": sum}));
     // the uninterrupted run: defines the complete post-state, the number of VM steps, the statements
     let reference = rn.exec(s, op, "ref", 0, true, true, &pre);
+    if std::env::var("C02_STMTS").is_ok() {
+        for st in &reference.stmts {
+            eprintln!("{:>7} {} {}", st.step, if st.write { "W" } else { "r" }, st.sql);
+        }
+        eprintln!("total steps {}", reference.steps);
+    }
     // a second uninterrupted run must agree with it (determinism of the comparison itself)
     rn.restore(s, true);
     rn.exec(s, op, "plain", 0, false, false, &pre);
@@ -804,7 +850,10 @@ fn main() {
         build_state(&work, "A", seed.wrapping_mul(1000) + 1, false, false, 30, 10),
         build_state(&work, "B", seed.wrapping_mul(1000) + 2, true, true, 28, 12),
     ];
-    let mut rng = ChaChaRng::seed_from_u64(seed.wrapping_mul(7919) + 17);
+    let shard: (usize, usize) = std::env::var("C02_SHARD").ok().and_then(|s| {
+        let (a, b) = s.split_once('/')?;
+        Some((a.parse().ok()?, b.parse().ok()?))
+    }).unwrap_or((0, 1));
     let mut rn = Runner {
         out: &mut out,
         scratch: work.clone(),
@@ -817,8 +866,31 @@ fn main() {
         samples: vec![],
     };
     let mut groups = vec![];
-    for s in &states {
+    // static assignment of groups to shards, heaviest first (a scan costs ~40 ms of note-commitment hashing)
+    let weight = |op: &str| -> u64 { if op.starts_with("scan") { 10 } else { 1 } };
+    let mut all: Vec<(usize, String)> = vec![];
+    for (si, s) in states.iter().enumerate() {
         for op in ops_for(s) {
+            all.push((si, op.name.clone()));
+        }
+    }
+    all.sort_by_key(|(si, n)| (std::cmp::Reverse(weight(n)), *si, n.clone()));
+    let mut load = vec![0u64; shard.1];
+    let mut mine = BTreeSet::new();
+    for (si, n) in &all {
+        let k = (0..shard.1).min_by_key(|k| load[*k]).unwrap();
+        load[k] += weight(n);
+        if k == shard.0 {
+            mine.insert((*si, n.clone()));
+        }
+    }
+    for (si, s) in states.iter().enumerate() {
+        for op in ops_for(s) {
+            if !mine.contains(&(si, op.name.clone())) {
+                continue;
+            }
+            let gh = blake2b_simd::Params::new().hash_length(8).hash(format!("{seed}/{}/{}", s.name, op.name).as_bytes());
+            let mut rng = ChaChaRng::seed_from_u64(u64::from_le_bytes(gh.as_bytes().try_into().unwrap()));
             if let Some(o) = &only {
                 if o[0] != s.name || o.get(1).map(|n| *n != op.name).unwrap_or(false) {
                     continue;
@@ -839,6 +911,7 @@ fn main() {
         "executions": rn.execs, "faults_fired": rn.faults_fired, "faults_with_pending_rows": rn.faults_with_pending_rows,
         "distinct_nontrivial": rn.nontrivial.len(), "panics": rn.panics, "groups": groups, "samples": rn.samples,
         "wall_ms": t0.elapsed().as_millis() as u64,
+        "times_us": TIMES.with(|m| m.borrow().iter().map(|(k, (n, us))| json!([k, n, *us as u64])).collect::<Vec<_>>()),
     });
     let n = out.finish();
     for s in &states {
